@@ -147,11 +147,11 @@ def run(ctx):
     t = ctx.thorough
 
     # ---- 1. exhaustive runs
-    r = ctx.mc("host", "HostSet", "MC_HostSet_fixed_quick.cfg", workers=8, timeout=600, coverage=True)
+    r = ctx.mc("host", "HostSet", "MC_HostSet_fixed_quick.cfg", workers=4, timeout=600, coverage=True)
     ctx.check_vacuity(r, "HostSet")
     if t:
-        ctx.mc("host", "HostSet", "MC_HostSet_fixed.cfg", workers=8, timeout=900)
-        ctx.mc("host", "HostSet", "MC_HostSet_fixed_deep.cfg", workers=8, timeout=900)
+        ctx.mc("host", "HostSet", "MC_HostSet_fixed.cfg", workers=4, timeout=900)
+        ctx.mc("host", "HostSet", "MC_HostSet_fixed_deep.cfg", workers=4, timeout=900)
     for variant in ("pinned", "noFixRemove", "noFixAdd", "noFixFlag", "noFixMark"):
         ctx.mc("host", "HostSet", "MC_HostSet_%s.cfg" % variant, workers=4, timeout=300, expect_violated=ALL_INVS, count=False)
     for inv in ("UsableIsPreferredTier", "RemovedNeverReported", "RemovedClosesEstablished"):
@@ -159,7 +159,7 @@ def run(ctx):
     # publication to lock-free readers: every mutation is one linearization point; the variants "lazy rebuild by the
     # reader, store after unlock", "re-add publishes an intermediate list", "ReplaceAll publishes after every removal"
     # must each violate
-    ctx.mc("host", "HostSetPub", "MC_HostSetPub_atomic%s.cfg" % ("" if t else "_quick"), workers=8, timeout=900)
+    ctx.mc("host", "HostSetPub", "MC_HostSetPub_atomic%s.cfg" % ("" if t else "_quick"), workers=4, timeout=900)
     ctx.mc("host", "HostSetPub", "MC_HostSetPub_lazy.cfg", workers=2, timeout=300, expect_violated=["PublishedIsCurrent"], count=False)
     ctx.mc("host", "HostSetPub", "MC_HostSetPub_readd.cfg", workers=2, timeout=300, expect_violated=["LinearizableHealthy"], count=False)
     ctx.mc("host", "HostSetPub", "MC_HostSetPub_replace.cfg", workers=2, timeout=300, expect_violated=["LinearizableHealthy"], count=False)
@@ -287,19 +287,29 @@ def run(ctx):
                     e["x"] = x
     # end to end: a real TCP processor, OnSvcConfigUpdate while a round is held, probes failed / answered round by round
     efile = os.path.join(ctx.work, "hc-e2e.ndjson")
-    ctx.harness(["c15-hc-e2e", "-out", efile], timeout=600)
+    ctx.harness(["c15-hc-e2e", "-out", efile] + (["-disable"] if t else []), timeout=600)
     e2e = kit.read_ndjson(efile)
     for x in e2e:
+        if x.get("panic"):
+            # outside C15's statement (nothing about the usable view or the thresholds): recorded as an observation
+            ctx.notes.append("OBSERVATION hc-e2e history %s: a call into the processor panicked: %s (OnSvcConfigUpdate with the health "
+                             "check removed reaches Monitor.ResetHealthCheck(nil))" % (x["history"], x["panic"]))
+            continue
         if x.get("err"):
             raise kit.Inconclusive("c15-hc-e2e: " + x["err"])
-        ctx.case(key=["hc-e2e", x["intervalChanged"], x["from"], x["to"]], nontrivial=True)
+        ctx.case(key=["hc-e2e", x.get("history"), x["intervalChanged"], x["from"], x["to"]], nontrivial=True)
+        if x.get("probesAfterStop", 0) > 0:
+            ctx.violation("monitor-survives-stop", "history %s: %d health probes reached the backend after the processor's Stop had returned "
+                          "(a health monitor is still running on the stopped service)" % (x.get("history"), x["probesAfterStop"]),
+                          {"kind": "c15-hc-e2e", "e2e": x})
         early = None
         if 0 < x["failsToUnhealthy"] < x["to"][1]:
             early = "host became unusable after %d consecutive failed rounds, fall threshold in force %d" % (x["failsToUnhealthy"], x["to"][1])
         elif 0 < x["oksToHealthy"] < x["to"][0]:
             early = "host became usable again after %d consecutive successful rounds, rise threshold in force %d" % (x["oksToHealthy"], x["to"][0])
         if early:
-            e = hfound.setdefault("health-flip-before-threshold/after-reconfigure", {"n": 0, "x": None, "key": "e2e"})
+            sig = "health-flip-before-threshold/" + ("after-enable-retune" if x.get("history") == "enable-retune" else "after-reconfigure")
+            e = hfound.setdefault(sig, {"n": 0, "x": None, "key": "e2e"})
             e["n"] += 1
             e["e2e"] = (x, early)
         if x["failsToUnhealthy"] == 0 or x["oksToHealthy"] == 0:
@@ -312,8 +322,8 @@ def run(ctx):
             parts.append("real monitor, initial rise=%d fall=%d, steps %s: %s" % (x["rise"], x["fall"], x["seq"], x[e["key"]] if e["key"] in x else ""))
         if e.get("e2e"):
             x, early = e["e2e"]
-            parts.append("end to end (TCP processor, OnSvcConfigUpdate %s -> %s, interval %s): %s; rounds %s" % (
-                x["from"], x["to"], "changed" if x["intervalChanged"] else "unchanged", early, x["trace"]))
+            parts.append("end to end (TCP processor, history %s, OnSvcConfigUpdate %s -> %s, interval %s): %s; rounds %s" % (
+                x.get("history"), x["from"], x["to"], "changed" if x["intervalChanged"] else "unchanged", early, x["trace"]))
         ctx.violation(sig, "a host's health flipped after fewer consecutive contrary results than the threshold in force [%s; %d cases]"
                       % ("; ".join(parts), e["n"]), {"kind": "c15-health", "result": e.get("x"), "e2e": e.get("e2e")})
     ctx.cov["health"] = {"paths": len(hpaths), "conform_exactly": hconf, "sequences_total": len(hr), "with_reconfiguration": nreconf,
@@ -433,7 +443,7 @@ def replay(ctx, rep):
         kit.write_ndjson(sfile, [art["script"]])
         ctx.harness(["c15-readers", "-in", sfile, "-out", rfile, "-reps", "3000", "-readers", "6"], timeout=600)
         r = kit.read_ndjson(rfile)[0]
-        ctx.mc("host", "HostSetPub", "MC_HostSetPub_atomic_quick.cfg", workers=8, timeout=600)
+        ctx.mc("host", "HostSetPub", "MC_HostSetPub_atomic_quick.cfg", workers=4, timeout=600)
         ctx.case(key="race-replay", nontrivial=True, n=r["races"])
         ctx.case(key=ops_of(art["script"]), nontrivial=True)
         ctx.sample({"script": ops_of(art["script"]), "counts": r.get("counts")})
@@ -467,7 +477,7 @@ def replay(ctx, rep):
         return
     if art.get("kind") != "c15-path":
         raise kit.Inconclusive("replay of %s artefacts is not supported" % art.get("kind"))
-    ctx.mc("host", "HostSet", "MC_HostSet_fixed_quick.cfg", workers=8, timeout=600)
+    ctx.mc("host", "HostSet", "MC_HostSet_fixed_quick.cfg", workers=4, timeout=600)
     naddr = len(art["path"][0]["obs"]["all"])
     results = replay_paths(ctx, [art["path"]], "single", naddr=naddr)
     found = {}
